@@ -6,7 +6,9 @@ import PcbV.Lemmas.Screen
   visible), the video signals they emit, and the reference consumer of `interface/video_sdl2.py`
   (pixels) / `video_curses.py` (characters).  Glyph rendering and the background of an attribute are
   parameters, the geometry is arbitrary (pixel size = text size × font size, as in every video mode
-  whose rows fit the canvas; Hercules graphics, 348 = 25·14 − 2 lines, is covered by the run-time
+  whose rows fit the canvas; the byte-row → unicode-cell conversion `Env.conv` is a parameter too, so
+  the theorems hold for single-byte AND double-byte codepages, where a written byte re-pairs with its
+  neighbours and changes cells left and right of the written range; Hercules graphics, 348 = 25·14 − 2 lines, is covered by the run-time
   oracle only).  Operation histories are arbitrary lists of page operations on arbitrary pages
   (visible or not), page switches and page copies; `validOps` asks for coordinates inside the page
   and that `clear_rows` is not called inside `collect_updates` (true of every caller).
@@ -104,7 +106,8 @@ theorem reachable_redraws (e : Env) (npages attr oldv v : Nat) (ops : List Op) (
 
 /-- a 2×1-cell text page with 1×1 "glyphs"; text-mode background `(attr >> 4) & 7` -/
 def tinyEnv : Env :=
-  { g := { th := 2, tw := 1, fh := 1, fw := 1 }, glyph := fun _ a _ _ => a, backOf := fun a => a / 16 % 8 }
+  { g := { th := 2, tw := 1, fh := 1, fw := 1 }, glyph := fun _ a _ _ => a, backOf := fun a => a / 16 % 8,
+    conv := sbcsConv, dbcs := false }
 
 def tinyPage : Page := { blankPage 7 with visible := true }
 def tinyCanvas : Canvas := consume1 Canvas.empty (modeSignal tinyEnv)
@@ -164,6 +167,21 @@ theorem copy_alias_old_counterexample :
     (clearRowInPlace (copyRowsOld h0 0 1) 0 0).utext 1 0 0 = 32 ∧
     (clearRowInPlace h0 0 0).utext 1 0 0 = 65 := by decide
 
+/-- **full-width glyph on a half-width range.**  With `_draw_text_chunk` as it was, redrawing only the lead
+    cell of a double-byte character (its byte rewritten in another colour: dirty range = that one cell)
+    rendered the two-cell glyph and so repainted the trail cell as well, but only the lead cell is
+    submitted: the display keeps the old trail cell while the pixel buffer has the new one. -/
+theorem draw_wide_old_counterexample :
+    let e : Env := { tinyEnv with g := { th := 1, tw := 2, fh := 1, fw := 1 } }
+    let p : Page := { blankPage 7 with
+      visible := true
+      px := fun _ _ => 7
+      attrs := fun _ c => if c = 0 then 30 else 7 }
+    let cv : Canvas := { consume1 Canvas.empty (modeSignal e) with px := fun _ _ => 7 }
+    let p' : Page := { p with px := drawTextWide e p 1 1 1 }
+    Tracks e p cv ∧ p'.px 0 1 = 30 ∧ (consume cv (submit e p' 1 1 1 1)).px 0 1 = 7 := by
+  refine ⟨⟨⟨rfl, rfl, rfl, rfl, rfl, rfl⟩, fun _ _ _ _ => rfl, fun _ _ _ _ => rfl⟩, by decide, by decide⟩
+
 /-! ### non-vacuity -/
 
 /-- a valid history exists for the tiny environment (so `display_tracks_buffer` is not vacuous) … -/
@@ -179,6 +197,24 @@ example :
     let r := runOps tinyEnv (initDisp 2 7 5) [Op.setPage 0, Op.page 0 (POp.putChar 1 1 65 23)]
     r.1.vnum = 0 ∧ (r.1.pages 0).visible = true ∧
     (consume Canvas.empty (modeSignal tinyEnv :: r.2)).px 0 0 = 23 ∧ (r.1.pages 0).px 0 0 = 23 := by decide
+
+/-- a DBCS row of 4 cells (GBK ranges, no box protection): writing a lone lead byte `B0` in front of an
+    existing `C` turns cell 3 into the trail marker — a change to the RIGHT of the written column.  The
+    dirty range is widened to it, the cell is submitted, and the canvas shows what the page reports. -/
+def dbcsEnv : Env :=
+  { g := { th := 1, tw := 4, fh := 1, fw := 1 }, glyph := fun _ a _ _ => a, backOf := fun a => a / 16 % 8,
+    conv := pairConv (fun b => decide (129 ≤ b ∧ b ≤ 254)) (fun b => decide (64 ≤ b ∧ b ≤ 254 ∧ b ≠ 127)) 4,
+    dbcs := true }
+
+example :
+    let ops := [Op.setPage 0, Op.page 0 (POp.putChar 1 1 65 7), Op.page 0 (POp.putChar 1 2 66 7),
+                Op.page 0 (POp.putChar 1 3 67 7), Op.page 0 (POp.putChar 1 4 68 7),
+                Op.page 0 (POp.putChar 1 2 176 7)]
+    let r := runOps dbcsEnv (initDisp 1 7 0) ops
+    let cv := consume Canvas.empty (modeSignal dbcsEnv :: r.2)
+    validOps dbcsEnv (initDisp 1 7 0) ops ∧
+    (r.1.pages 0).utext 0 1 = 256 * 176 + 67 ∧ (r.1.pages 0).utext 0 2 = 65535 ∧
+    cv.tx 0 1 = 256 * 176 + 67 ∧ cv.tx 0 2 = 65535 ∧ cv.tx 0 3 = 68 := by decide
 
 /-- … and on it the repaired scroll does paint the background: the bottom pixel is 1 on both sides -/
 example :
